@@ -280,6 +280,11 @@ impl BlockManager {
         metrics
             .storage_block_engine_block_reclaiming
             .absolute(state.reclaiming_blocks.len() as _);
+
+        // The recovered device may hold fewer clean blocks than the threshold (e.g. none at all after a crash
+        // between a flusher taking the last clean block and the reclaimer cleaning the next one). Nothing else
+        // starts a reclaim while the clean queue is empty, so writers would wait for a clean block forever.
+        self.reclaim_if_needed(&mut state);
     }
 
     pub fn blocks(&self) -> usize {
